@@ -77,7 +77,7 @@ from typing import (
 if TYPE_CHECKING:
     from .object_format import ObjectFormat
 
-from .errors import NotTreeError
+from .errors import NotTreeError, ObjectFormatException
 from .file import GitFile, SharedPerm, _GitFile, adjust_shared_perm
 from .midx import MultiPackIndex, load_midx
 from .objects import (
@@ -2293,10 +2293,19 @@ class DiskObjectStore(PackBasedObjectStore):
             # than silently landed on disk. MemoryObjectStore already
             # validates ingested objects this way via PackInflater; without
             # the same check DiskObjectStore was strictly weaker.
+            # Also refuse packs that contain the same object twice (as git
+            # index-pack --strict does): the index can only point at one of
+            # the copies, and if that is a delta based on the other copy the
+            # object cannot be resolved any more.
+            seen_ids = set()
             for _obj in PackInflater.for_pack_data(
                 final_pack.data, resolve_ext_ref=self.get_raw
             ):
-                pass
+                if _obj.id in seen_ids:
+                    raise ObjectFormatException(
+                        f"pack contains object {_obj.id.decode('ascii')} more than once"
+                    )
+                seen_ids.add(_obj.id)
         except BaseException:
             # The failed validation may still hold views into the mapped
             # pack, in which case close() raises; the files must go anyway.
